@@ -15,6 +15,7 @@ func TestC05(t *testing.T) {
 	run := rt.Start(t, "C05")
 	defer run.Finish()
 	r := run.Rand()
+	c05CloseWindow(run)
 
 	// ---- oracle 1: acceptance predicate, exhaustive over node-type sequences of length 1..5 -------
 	variants := []string{"ok", "missing", "emptyid", "emptypid", "emptytype", "emptylist"}
